@@ -278,6 +278,35 @@ static void run_invalid(void)
         c13_null_and_ranges(&L);
         /* the live instance is still intact after all the refused calls */
         if (mon_case("%s|still-functional", ck)) { live_roundtrip(&L, "C13", "after refused calls", 0); mon_count("evaluations", 1); mon_end(); }
+        /* converse clause: an accepted instance used in unusual but valid ways - long lists with many duplicate pointers,
+         * any non-zero value of the forced-check flag, every count from 1 to the list length - without faults */
+        if (c.be != EC_BACKEND_NULL) {
+            static const int cnts[] = { 1, 31, 32, 33, 34, 39, 40, 48, 64, 100, 200 };
+            static const int fvs[] = { 0, 1, -1, 2, -0x7fffffff - 1 };
+            for (size_t ci2 = 0; ci2 < sizeof cnts / sizeof cnts[0]; ci2++) for (size_t fi = 0; fi < sizeof fvs / sizeof fvs[0]; fi++) {
+                if (!mon_case("%s|valid-usage|pointers=%d|force=%d", ck, cnts[ci2], fvs[fi])) continue;
+                qp_t q; q_begin(&q);
+                int n = L.s.n, k = c.k, cnt = cnts[ci2];
+                char **lst = malloc(sizeof(char *) * (size_t)cnt);
+                int skip = cfg_tol(&c) >= 1 ? (int)(ci2 % (size_t)k) : -1;          /* one data fragment left out: the real decoder runs */
+                for (int i = 0, f = 0; i < cnt; i++) { if (f == skip) f = (f + 1) % n; lst[i] = (char *)L.s.frag[f]; f = (f + 1) % n; }
+                char *out = NULL; uint64_t ol = 0;
+                int rc = liberasurecode_decode(L.desc, lst, cnt, L.s.flen, fvs[fi], &out, &ol);
+                mon_count("evaluations", 1); mon_count("valid_usage_calls", 1);
+                int enough = cnt >= n - 1;
+                if (rc == 0) { if (ol != L.s.len || memcmp(out, L.data, L.s.len)) mon_viol("C13", "valid-usage-wrong-bytes", "decode of %d pointers (force=%d) returned wrong bytes", cnt, fvs[fi]); liberasurecode_decode_cleanup(L.desc, out); }
+                else if (rc > 0 || enough) mon_viol("C13", "valid-usage-refused", "decode of %d valid pointers covering all but one fragment (force=%d) returned %d", cnt, fvs[fi], rc);
+                char *o = malloc(L.s.flen);
+                rc = liberasurecode_reconstruct_fragment(L.desc, lst, cnt, L.s.flen, skip >= 0 ? skip : 0, o);
+                if (rc == 0 && memcmp(o, L.s.frag[skip >= 0 ? skip : 0], L.s.flen)) mon_viol("C13", "valid-usage-wrong-bytes", "reconstruct from %d pointers returned a wrong fragment", cnt);
+                free(o);
+                liberasurecode_verify_stripe_metadata(L.desc, lst, cnt);
+                free(lst);
+                q_zero(&q, "C13", "valid calls with a long fragment list");
+                mon_distinct("nontrivial", mon_hash_u64((uint64_t)cnt * 16 + fi, mon_hash_str(ck, 75)));
+                mon_end();
+            }
+        }
         if (mon_case_all("%s|teardown", ck)) { live_close(&L); mon_end(); }
     }
     /* create: NULL args, backend ids */
@@ -815,7 +844,7 @@ static int oom_do(live_t *L, const oop_t *o, int *exact)
     return rc;
 }
 
-typedef struct { live_t *L; const oop_t *op; long nth; int rc0; const cfg_t *c; uint64_t len; } oomarg_t;
+typedef struct { live_t *L; const oop_t *op; long nth; int rc0; const cfg_t *c; uint64_t len; live_t *L2; } oomarg_t;
 #define OOM_FIRED 1
 #define OOM_SUCCEEDED 2
 #define OOM_ERROR 4
@@ -847,6 +876,7 @@ static int oom_child_op(void *v)
 }
 
 /* child: create with its nth library allocation failing */
+static const char *OOM_PROP = "C16";     /* C14 reuses the create enumeration (siblings alive) under its own id */
 static int oom_child_create(void *v)
 {
     oomarg_t *a = v; const cfg_t *c = a->c; int fl = 0;
@@ -855,25 +885,36 @@ static int oom_child_create(void *v)
     mon_child_phase = 1;
     if (fired) fl |= OOM_FIRED;
     /* a live sibling of the same backend (shares the GF tables / plugin handle) is unaffected by whatever happened */
-    if (a->L && a->L->desc > 0) live_roundtrip(a->L, "C16", "sibling instance after a create that hit an allocation failure", 1);
+    if (a->L && a->L->desc > 0) live_roundtrip(a->L, OOM_PROP, "sibling instance after a create that hit an allocation failure", 1);
+    if (a->L2 && a->L2->desc > 0) live_roundtrip(a->L2, OOM_PROP, "second sibling instance after a create that hit an allocation failure", 0);
     if (d > 0) {
         fl |= OOM_SUCCEEDED;
         live_t L; memset(&L, 0, sizeof L); L.c = *c; cfg_key(c, L.ck, sizeof L.ck); L.desc = d; code_init(&L.cd, c);
         rng_t r; rng_seed(&r, MO.seed, a->len); L.data = malloc(a->len); rng_fill(&r, L.data, a->len);
-        if (stripe_make(&L.s, d, c, L.data, a->len) != 0) mon_viol("C16", "oom-create-succeeded-but-unusable", "create returned %d although allocation #%ld failed, and the instance cannot encode", d, a->nth);
-        else live_roundtrip(&L, "C16", "instance created while an allocation failed", 0);
+        if (stripe_make(&L.s, d, c, L.data, a->len) != 0) mon_viol(OOM_PROP, "oom-create-succeeded-but-unusable", "create returned %d although allocation #%ld failed, and the instance cannot encode", d, a->nth);
+        else live_roundtrip(&L, OOM_PROP, "instance created while an allocation failed", 0);
         live_close(&L);
-        q_delta(&q, "C16", "create (allocation failure tolerated) + use + destroy", 0, 1);
+        q_delta(&q, OOM_PROP, "create (allocation failure tolerated) + use + destroy", 0, 1);
     } else {
         fl |= OOM_ERROR;
-        if (d == 0) mon_viol("C16", "oom-create-returned-zero", "create returned 0 when allocation #%ld failed", a->nth);
-        q_zero(&q, "C16", "create that failed because an allocation failed");
-        if (registry_len() != before) mon_viol("C16", "oom-create-registered", "registry length changed from %d to %d although create failed", before, registry_len());
+        if (d == 0) mon_viol(OOM_PROP, "oom-create-returned-zero", "create returned 0 when allocation #%ld failed", a->nth);
+        q_zero(&q, OOM_PROP, "create that failed because an allocation failed");
+        if (registry_len() != before) mon_viol(OOM_PROP, "oom-create-registered", "registry length changed from %d to %d although create failed", before, registry_len());
     }
     /* next create works, and everything is returned after its destroy */
-    { live_t L; if (live_open(&L, c, a->len, MO.seed) != 0) mon_viol("C16", "oom-next-create-failed", "create after a create that hit an allocation failure does not work");
-      else { live_roundtrip(&L, "C16", "create after failed create", 0); live_close(&L); } }
-    q_delta(&q, "C16", "after the follow-up create/destroy", 0, 1);
+    { live_t L; if (live_open(&L, c, a->len, MO.seed) != 0) mon_viol(OOM_PROP, "oom-next-create-failed", "create after a create that hit an allocation failure does not work");
+      else { live_roundtrip(&L, OOM_PROP, "create after failed create", 0); live_close(&L); } }
+    q_delta(&q, OOM_PROP, "after the follow-up create/destroy", 0, 1);
+    if (a->L && a->L2 && a->L->desc > 0 && a->L2->desc > 0) {
+        /* (in this child only) the siblings go away one after the other, in an order that depends on the case; the survivor keeps working */
+        live_t *first = (a->nth & 1) ? a->L : a->L2, *second = (a->nth & 1) ? a->L2 : a->L;
+        int d1 = first->desc; first->desc = -1;
+        if (liberasurecode_instance_destroy(d1) != 0) mon_viol(OOM_PROP, "destroy-failed", "destroy of a sibling after a create that hit an allocation failure failed");
+        live_roundtrip(second, OOM_PROP, "surviving sibling after the other one was destroyed", 2);
+        int d2 = second->desc; second->desc = -1;
+        if (liberasurecode_instance_destroy(d2) != 0) mon_viol(OOM_PROP, "destroy-failed", "destroy of the last sibling failed");
+        if (registry_len() != a->rc0) mon_viol(OOM_PROP, "registry-length", "registry holds %d instances after all siblings were destroyed, expected %d", registry_len(), a->rc0);
+    }
     return fl;
 }
 
@@ -888,7 +929,7 @@ static void oom_account(const mon_child_t *ch, const char *what, long nth)
             mon_count("oom_unchecked_alloc_null_deref", 1); mon_count(nm, 1);
         } else {
             char kind[160]; snprintf(kind, sizeof kind, "crash:signal:%d@%s", ch->sig, ch->site);
-            mon_viol("C16", kind, "%s: process faulted (signal %d, %s) in %s %s allocation #%ld was made to fail: wild pointer / freed memory / state left broken by the error exit", what, ch->sig, ch->nullpage ? "NULL page" : "not a NULL-page access", ch->site, ch->phase ? "in a LATER call, after" : "when", nth);
+            mon_viol(OOM_PROP, kind, "%s: process faulted (signal %d, %s) in %s %s allocation #%ld was made to fail: wild pointer / freed memory / state left broken by the error exit", what, ch->sig, ch->nullpage ? "NULL page" : "not a NULL-page access", ch->site, ch->phase ? "in a LATER call, after" : "when", nth);
         }
         return;
     }
@@ -967,6 +1008,46 @@ static void run_oom(void)
             }
         }
         live_close(&L);
+    }
+}
+
+
+/* C14: a create that fails half-way (allocation failure at every allocation site of create, injected through the ledger's
+ * failpoint) while one or two instances of the same backend are alive: "a failed create leaves no instance behind" and
+ * "operations on one instance never change the behaviour of another", incl. the shared GF tables / plugin handle */
+static void run_registry_oomcreate(void)
+{
+    ledger_refresh();
+    if (!ledger_available()) { mon_logf("HARNESS oomcreate mode needs the ledger build"); return; }
+    OOM_PROP = "C14";
+    static const cfg_t pool[] = { { EC_BACKEND_LIBERASURECODE_RS_VAND, 4, 2, 2, 0, CHKSUM_CRC32 }, { EC_BACKEND_LIBERASURECODE_RS_VAND, 10, 4, 4, 0, CHKSUM_NONE }, { EC_BACKEND_FLAT_XOR_HD, 10, 5, 3, 0, CHKSUM_CRC32 },
+                                  { EC_BACKEND_ISA_L_RS_VAND, 4, 2, 2, 0, CHKSUM_CRC32 }, { EC_BACKEND_ISA_L_RS_CAUCHY, 5, 3, 3, 0, CHKSUM_NONE }, { EC_BACKEND_NULL, 4, 2, 2, 0, CHKSUM_NONE }, { EC_BACKEND_FLAT_XOR_HD, 6, 6, 4, 0, CHKSUM_NONE } };
+    { cfg_t c = pool[0]; live_t L; if (live_open(&L, &c, 10, 1) == 0) live_close(&L); if (isal_ok) { cfg_t c2 = pool[3]; if (live_open(&L, &c2, 10, 1) == 0) live_close(&L); } ledger_refresh(); }
+    for (size_t pi = 0; pi < sizeof pool / sizeof pool[0]; pi++) {
+        cfg_t c = pool[pi];
+        if (!isal_ok && (c.be == EC_BACKEND_ISA_L_RS_VAND || c.be == EC_BACKEND_ISA_L_RS_CAUCHY)) continue;
+        char ck[96]; cfg_key(&c, ck, sizeof ck);
+        for (int nsib = 1; nsib <= 2; nsib++) {
+            cfg_t c2 = c; if (c.be == EC_BACKEND_LIBERASURECODE_RS_VAND) { c2.k = 3; c2.m = 3; c2.hd = 3; }       /* second sibling: same backend, other shape where there is one */
+            live_t L, L2; memset(&L2, 0, sizeof L2); L2.desc = -1;
+            int base = registry_len();
+            if (live_open(&L, &c, (uint64_t)c.k * 29 + 7, MO.seed) != 0) continue;
+            if (nsib == 2 && live_open(&L2, &c2, (uint64_t)c2.k * 31 + 3, MO.seed + 1) != 0) { live_close(&L); continue; }
+            ledger_refresh();
+            long A = 0;
+            { ledger_fail_arm(1L << 40); int d = lec_create(&c); A = ledger_fail_seen(); ledger_fail_disarm(); if (d > 0) liberasurecode_instance_destroy(d); ledger_refresh(); }
+            for (long nth = 1; nth <= A; nth++) {
+                if (!mon_case("%s|oomcreate|siblings=%d|alloc#%ld", ck, nsib, nth)) continue;
+                oomarg_t a = { &L, NULL, nth, base, &c, (uint64_t)c.k * 37 + 5, nsib == 2 ? &L2 : NULL }; mon_child_t ch;
+                if (mon_fork_run(oom_child_create, &a, &ch) != 0) mon_logf("HARNESS fork failed");
+                else oom_account(&ch, "create with live siblings", nth);
+                mon_distinct("nontrivial", mon_hash_u64((uint64_t)nth * 4 + (uint64_t)nsib, mon_hash_str(ck, 141)));
+                if (nth == 1) mon_sample("{\"config\":\"%s\",\"live_siblings\":%d,\"library_allocations_in_create\":%ld,\"each_failed_once\":true}", ck, nsib, A);
+                mon_end();
+            }
+            if (L2.desc > 0) live_close(&L2);
+            live_close(&L);
+        }
     }
 }
 
@@ -1187,6 +1268,7 @@ int main(int argc, char **argv)
     mon_count0("isal_reference_plugin_available", isal_ok);
     mon_count0("ledger_available", ledger_available());
     if (!strcmp(PROP, "C13")) run_invalid();
+    else if (!strcmp(PROP, "C14") && !strcmp(MO.mode, "oomcreate")) run_registry_oomcreate();
     else if (!strcmp(PROP, "C14")) run_registry();
     else if (!strcmp(PROP, "C16") && !strcmp(MO.mode, "oom")) run_oom();
     else if (!strcmp(PROP, "C16")) run_leaks();
